@@ -1,1 +1,2 @@
 import NanoVerif.Props.C16
+import NanoVerif.Props.C15
